@@ -647,6 +647,57 @@ def _gradient_iterative(expr: Expression, wrt: Variable) -> Expression:
                 results[node_id] = _simplify_mul(cosh(operand), d_operand)
             elif current.op == "cosh":
                 results[node_id] = _simplify_mul(sinh(operand), d_operand)
+            elif current.op == "asin":
+                from optyx.core.functions import sqrt as sqrt_fn
+
+                inner = _simplify_sub(Constant(1.0), _simplify_mul(operand, operand))
+                results[node_id] = _simplify_mul(
+                    _simplify_div(Constant(1.0), sqrt_fn(inner)), d_operand
+                )
+            elif current.op == "acos":
+                from optyx.core.functions import sqrt as sqrt_fn
+
+                inner = _simplify_sub(Constant(1.0), _simplify_mul(operand, operand))
+                results[node_id] = _simplify_mul(
+                    _simplify_neg(_simplify_div(Constant(1.0), sqrt_fn(inner))),
+                    d_operand,
+                )
+            elif current.op == "atan":
+                inner = _simplify_add(Constant(1.0), _simplify_mul(operand, operand))
+                results[node_id] = _simplify_mul(
+                    _simplify_div(Constant(1.0), inner), d_operand
+                )
+            elif current.op == "asinh":
+                from optyx.core.functions import sqrt as sqrt_fn
+
+                inner = _simplify_add(Constant(1.0), _simplify_mul(operand, operand))
+                results[node_id] = _simplify_mul(
+                    _simplify_div(Constant(1.0), sqrt_fn(inner)), d_operand
+                )
+            elif current.op == "acosh":
+                from optyx.core.functions import sqrt as sqrt_fn
+
+                inner = _simplify_sub(_simplify_mul(operand, operand), Constant(1.0))
+                results[node_id] = _simplify_mul(
+                    _simplify_div(Constant(1.0), sqrt_fn(inner)), d_operand
+                )
+            elif current.op == "atanh":
+                inner = _simplify_sub(Constant(1.0), _simplify_mul(operand, operand))
+                results[node_id] = _simplify_mul(
+                    _simplify_div(Constant(1.0), inner), d_operand
+                )
+            elif current.op == "log2":
+                ln2 = Constant(np.log(2.0))
+                results[node_id] = _simplify_mul(
+                    _simplify_div(Constant(1.0), _simplify_mul(operand, ln2)),
+                    d_operand,
+                )
+            elif current.op == "log10":
+                ln10 = Constant(np.log(10.0))
+                results[node_id] = _simplify_mul(
+                    _simplify_div(Constant(1.0), _simplify_mul(operand, ln10)),
+                    d_operand,
+                )
             else:
                 # For other unary ops, fall back to numerical or raise
                 raise UnknownOperatorError(
